@@ -46,7 +46,12 @@ func (p *Program) muLK() *muAnalysis {
 	}
 	loggableSet := lk.cmdSetOf(loggable...)
 	// cmdMassInsert (dev mode) generates literal "set" commands and applies them like a replayer
-	replayers := map[string]bool{"loadAOF": true, "followHandleCommand": true, "cmdMassInsert": true}
+	// (a step of a replayer extracted into a helper that only replayers call is still a replayer)
+	replayerFuncs := p.calledOnlyFrom("loadAOF", "followHandleCommand", "cmdMassInsert")
+	replayers := map[string]bool{}
+	for f := range replayerFuncs {
+		replayers[f.Name()] = true
+	}
 	lk.callCmds = func(from, to *Unit, cm cmdSet) cmdSet {
 		if to != cmdU {
 			return cm
